@@ -160,6 +160,12 @@ def rlit(e):
     v = from_w8(e["v"], signed=signed)
     if not signed:
         v &= (1 << (8 * SIZE[n])) - 1
+    # the same constant may be spelled in another base: an unsuffixed (or l/ll-suffixed) octal or hexadecimal constant takes
+    # the unsigned type when the signed one cannot hold it (6.4.4.1p5), so these spellings have exactly the type n
+    if n == "uint" and v >= 1 << 31 and v % 3:
+        return ("0x%x" if v % 3 == 1 else "0%o") % v
+    if n in ("ulong", "ullong") and v >= 1 << 63 and v % 3:
+        return (("0x%x" if v % 3 == 1 else "0%o") % v) + ("L" if n == "ulong" else "LL")
     if n in SUFFIX:
         if v < 0:
             mn = -(1 << (8 * SIZE[n] - 1))
